@@ -13,7 +13,10 @@ package shard
 //     drop itself; for tombstoned / marked objects a GC pass that ran, or was cut by a
 //     crash, after the request) and (c) afterwards the node
 //     was observed to hold no metadata record of it and to refuse every metadata-aware
-//     read of it;
+//     read of it; in a crash continuation also: the drop / GC pass cut by the crash was
+//     working on it and its metadata record is gone when the store is reopened (the
+//     deletion got past its metadata step – the state the statement's quantifier calls
+//     "between the metadata and blob steps of a deletion" – and nothing will resume it);
 //   - from then on, until a Put of that object is accepted again, no step of the history
 //     (GC pass, epoch advance, tombstone expiry, offline metabase resync from the blobstor,
 //     write-cache flush, restart, crash recovery) may make Get / Exists / Head /
@@ -160,6 +163,11 @@ type vf09World struct {
 	seen     func(string, string)
 	guard    func(any, func()) bool
 	gate     *vf09Gate // nil: the background flusher runs freely
+	// crash continuations only: what the crash left of every object, probed when the store
+	// is reopened (before any further step): "<where its bytes are>-without-metadata" or
+	// "record+<where>".  Part of the class key: it names which copy outlived the metadata
+	// step of the cut deletion (i.e. which step order the deletion has).
+	left []string
 }
 
 func vf09GenUniverse(r *verifkit.Run, stream string, idx, n int) vf09Universe {
@@ -425,6 +433,28 @@ func (w *vf09World) readableVia(i int) string {
 	return ""
 }
 
+// dataIn tells where the bytes of object i are right now (component probes, no metabase).
+func (w *vf09World) dataIn(i int) (inBlob, inWC bool, loc string) {
+	if _, err := w.sh.blobStor.GetBytes(w.objs[i].Address()); err == nil {
+		inBlob = true
+	}
+	if w.wc && w.sh.hasWriteCache() {
+		if _, err := w.sh.writeCache.GetBytes(w.objs[i].Address()); err == nil {
+			inWC = true
+		}
+	}
+	loc = "nowhere"
+	switch {
+	case inBlob && inWC:
+		loc = "blobstor+cache"
+	case inBlob:
+		loc = "blobstor"
+	case inWC:
+		loc = "cache"
+	}
+	return
+}
+
 func (w *vf09World) describe() map[string]any {
 	var sizes []int
 	for _, b := range w.uni.Objects {
@@ -455,31 +485,21 @@ func (w *vf09World) observe(after, extra string) {
 		case w.m.Removed[i] && via != "":
 			w.count("resurrections", 1)
 			if w.report != nil {
-				inBlob, inWC := false, false
-				if _, err := w.sh.blobStor.GetBytes(w.objs[i].Address()); err == nil {
-					inBlob = true
+				inBlob, inWC, loc := w.dataIn(i)
+				scen := w.scenario
+				if w.left != nil {
+					scen += "|crash-left=" + w.left[i]
 				}
-				if w.wc {
-					if _, err := w.sh.writeCache.GetBytes(w.objs[i].Address()); err == nil {
-						inWC = true
-					}
-				}
-				loc := "nowhere"
-				switch {
-				case inBlob && inWC:
-					loc = "blobstor+cache"
-				case inBlob:
-					loc = "blobstor"
-				case inWC:
-					loc = "cache"
-				}
-				key := fmt.Sprintf("resurrected|%s|removed-by=%s|back-after=%s|data-in=%s", w.scenario, w.m.Req[i], strings.TrimSuffix(after, "0"), loc)
+				key := fmt.Sprintf("resurrected|%s|removed-by=%s|back-after=%s|data-in=%s", scen, w.m.Req[i], strings.TrimSuffix(after, "0"), loc)
 				d := w.describe()
 				d["detail"] = extra
 				d["object"] = i
 				d["address"] = w.objs[i].Address().String()
 				d["observed_removed_after"] = w.m.Since[i]
-				w.report(key, fmt.Sprintf("object %d (%s) was %s, observed removed after step %q (no metadata record, every read refused), no Put of it was accepted since, yet after %q %s returns it again (data in blobstor=%v, in write-cache=%v)",
+				if w.left != nil {
+					d["left_by_crash"] = w.left[i]
+				}
+				w.report(key, fmt.Sprintf("object %d (%s) was %s, removed as of step %q (removal procedure worked on it, no metadata record left), no Put of it was accepted since, yet after %q %s returns it (data in blobstor=%v, in write-cache=%v)",
 					i, w.objs[i].Address(), w.m.Req[i], w.m.Since[i], after, via, inBlob, inWC), d)
 			}
 			w.forget(i) // report one resurrection once
@@ -894,7 +914,12 @@ func vf09GenCrashHist(r *verifkit.Run, idx int) *vf09CrashHist {
 		ops = append(ops, vf09Op{Kind: "put", Obj: i})
 	}
 	if hs.wc {
-		switch rng.IntN(3) {
+		// where the removals find the objects: flushed (maybe with a newer cached copy on top),
+		// still only cached, or flushed by the cache's own scheduler.  Rotated over the
+		// write-cache histories (offset by the seed) so that every tier enumerates the crash
+		// points of a deletion for each of them.
+		wcOrd := idx - (idx+1)/3
+		switch (wcOrd + r.Rand("crash-mix", 0).IntN(3)) % 3 {
 		case 0:
 			ops = append(ops, vf09Op{Kind: "flush"})
 			if rng.IntN(2) == 0 {
@@ -1031,6 +1056,44 @@ func vf09Continue(r *verifkit.Run, jb *vf09CrashJob, data string, journal []stri
 	}
 	defer w.close()
 	extra := fmt.Sprintf("crash at %s#%d after step %s, continuation %d", jb.name, jb.k, jb.step, ci)
+	// What did the crash leave of every object?  Probed before anything else runs on the
+	// reopened store.  If the cut operation was a removal procedure (the drop of this object /
+	// a GC pass) working on an object the node still had a record of, and that record is gone
+	// now, the metadata step of the deletion is through: the node has dropped the object from
+	// its records and nothing will ever resume the deletion, i.e. the object HAS BEEN REMOVED
+	// from the node as far as the node is concerned (this is the state the statement's
+	// quantifier calls "between the metadata and blob steps of a deletion").  From here on no
+	// read may return it – including the very first read after the restart.
+	w.left = make([]string, len(w.objs))
+	if r.Guard(desc(), func() {
+		for i := range w.objs {
+			st, _ := w.sh.metaBase.ObjectStatus(w.objs[i].Address())
+			gone := len(st.HeaderIndex) == 0
+			_, _, loc := w.dataIn(i)
+			if gone {
+				w.left[i] = loc + "-without-metadata"
+				if loc == "nowhere" {
+					w.left[i] = "nothing"
+				}
+			} else {
+				w.left[i] = "record+data-in-" + loc
+			}
+			r.Seen("crash_left_of_object", w.left[i])
+			cutRemoval := inProgress.Kind == "gc" || (inProgress.Kind == "drop" && inProgress.Obj == i)
+			if cutRemoval && gone && !w.m.Removed[i] && w.m.Req[i] != "" && w.m.Proc[i] && w.m.Rec[i] {
+				w.m.Removed[i] = true
+				w.m.Since[i] = fmt.Sprintf("#%d %s cut by the crash after its metadata step", len(w.trace), inProgress)
+				r.Count("objects_removed_by_metadata_step_of_cut_deletion", 1)
+				r.Count("objects_observed_removed", 1)
+				r.Seen("removed_by", w.m.Req[i])
+				if loc != "nowhere" {
+					r.Count("deletions_cut_after_metadata_step_with_data_left", 1)
+				}
+			}
+		}
+	}) {
+		return
+	}
 	w.observe("crash-restart", extra)
 	for _, op := range cont {
 		var err error
